@@ -331,9 +331,9 @@ func wellFormedData(k string) bool {
 }
 
 var urlPos = map[string]string{"a": "href", "area": "href", "base": "href", "link": "href", "blockquote": "cite", "del": "cite", "ins": "cite", "q": "cite",
-	"audio": "src", "embed": "src", "iframe": "src", "img": "src", "input": "src", "script": "src", "source": "src", "track": "src", "video": "src"}
+	"audio": "src", "embed": "src", "iframe": "src", "img": "src", "image": "src", "input": "src", "script": "src", "source": "src", "track": "src", "video": "src"}
 
-var srcRewritePos = map[string]bool{"audio": true, "embed": true, "iframe": true, "img": true, "input": true, "script": true, "source": true, "track": true, "video": true}
+var srcRewritePos = map[string]bool{"audio": true, "embed": true, "iframe": true, "img": true, "image": true, "input": true, "script": true, "source": true, "track": true, "video": true}
 
 func stripForcedRel(v string) []string {
 	cands := []string{v}
@@ -436,7 +436,7 @@ func checkAttributes(m *Model, log *Log, in, out string, inToks, outToks []tok, 
 				r.Class("attr:target_forced")
 				continue
 			}
-			if k == "crossorigin" && m.crossOrigin && v == "anonymous" && (el == "audio" || el == "img" || el == "link" || el == "script" || el == "video") {
+			if k == "crossorigin" && m.crossOrigin && v == "anonymous" && (el == "audio" || el == "img" || el == "image" || el == "link" || el == "script" || el == "video") {
 				r.Class("attr:crossorigin_forced")
 				continue
 			}
